@@ -209,7 +209,13 @@ def power(a, b):
             if k % 2 == 0 and a.lo < 0 < a.hi:
                 vals.append(0.0)
             return hull(vals, n)
-        return div(IV(1, 1, 0), power(a, IV(-k, -k, 0))) if n == 0 else IV(-INF, INF, 1)
+        if n:
+            return IV(-INF, INF, 1)
+        p = power(a, IV(-k, -k, 0))
+        if k % 2 == 0 and p.nan == 0 and p.lo >= 0:
+            # an even power is +0.0 or positive whatever the sign of a zero base: the reciprocal is positive (1 / +0.0 = +inf)
+            return hull([INF if p.hi == 0 else 1.0 / p.hi, INF if p.lo == 0 else 1.0 / p.lo])
+        return div(IV(1, 1, 0), p)
     special = math.isinf(a.lo) or math.isinf(b.lo) or math.isinf(b.hi)
     if a.hi < 0 and not special:
         if a.exact and b.exact and b.lo != math.floor(b.lo):
@@ -260,7 +266,7 @@ def log(a):
     if a.nan == 2:
         return NAN
     if a.hi < 0:
-        return NAN if a.exact else IV(-INF, INF, 1)
+        return NAN if not a.nan else IV(-INF, INF, 1)  # every point of the operand is negative: NaN for every point
     n = 1 if (a.nan or a.lo < 0) else 0
 
     def l(x):
@@ -270,6 +276,36 @@ def log(a):
             return INF
         return math.log(x)
     return hull([l(max(a.lo, 0.0)), l(a.hi)], n)
+
+
+def log1p(a):
+    if a.nan == 2:
+        return NAN
+    if a.hi < -1:
+        return NAN if not a.nan else IV(-INF, INF, 1)
+    n = 1 if (a.nan or a.lo < -1) else 0
+
+    def l(x):
+        if x <= -1:
+            return -INF
+        if math.isinf(x):
+            return INF
+        return math.log1p(x)
+    return hull([l(max(a.lo, -1.0)), l(a.hi)], n)
+
+
+def expm1(a):
+    if a.nan == 2:
+        return NAN
+
+    def e(x):
+        if x == -INF:
+            return -1.0
+        try:
+            return math.expm1(x)
+        except OverflowError:
+            return INF
+    return hull([e(a.lo), e(a.hi)], a.nan)
 
 
 def absv(a):
@@ -328,7 +364,7 @@ def compare(op, a, b):
     return None
 
 
-UNARY = {'numpy.exp': exp, 'numpy.log': log, 'numpy.abs': absv, 'numpy.absolute': absv, 'abs': absv, 'numpy.sqrt': sqrt,
+UNARY = {'numpy.exp': exp, 'numpy.log': log, 'numpy.log1p': log1p, 'numpy.expm1': expm1, 'math.log1p': log1p, 'math.expm1': expm1, 'numpy.abs': absv, 'numpy.absolute': absv, 'abs': absv, 'numpy.sqrt': sqrt,
          'numpy.negative': neg, 'math.exp': exp, 'math.log': log}
 
 
@@ -614,6 +650,8 @@ def evaluate(ctx, cls, method, theta, u, v, extra=None, alts=False, domain=None,
         a, b = a.as_input(), b.as_input()
         if method == 'percent_point':
             params[ps[0]], params[ps[1]] = a, b
+        elif len(ps) == 1 and method == 'generator':
+            params[ps[0]] = a   # a function of one probability; the second coordinate of the box is unused
         else:
             params[ps[0]] = Tup([a, b], 'mat')
         return Frame(fn, params, cls)
@@ -678,7 +716,7 @@ def soundness_selftest(n=4000, seed=0):
     bad = []
     ops = {'add': (add, lambda x, y: x + y), 'sub': (sub, lambda x, y: x - y), 'mul': (mul, lambda x, y: x * y),
            'div': (div, lambda x, y: np.float64(x) / np.float64(y)), 'pow': (power, lambda x, y: np.power(np.float64(x), np.float64(y)))}
-    un = {'exp': (exp, np.exp), 'log': (log, np.log), 'abs': (absv, np.abs)}
+    un = {'exp': (exp, np.exp), 'log': (log, np.log), 'abs': (absv, np.abs), 'log1p': (log1p, np.log1p), 'expm1': (expm1, np.expm1)}
     with np.errstate(all='ignore'):
         for _ in range(n):
             a, b = pick(), pick()
